@@ -227,7 +227,10 @@ func TestC12Shipped(t *testing.T) {
 func genC12(t *rapid.T) *C12Case {
 	c := &C12Case{Base: "fix44", Level: "driver"}
 	if rapid.IntRange(0, 9).Draw(t, "big") == 0 {
-		c.Base, c.Level = "big", "build"
+		c.Base, c.Level = "big", "static"
+		if os.Getenv("VERIF_TIER") == "thorough" {
+			c.Level = "build"
+		}
 	}
 	n := rapid.IntRange(1, 12).Draw(t, "nOps")
 	for i := 0; i < n; i++ {
